@@ -1,4 +1,5 @@
 pub mod appbuild;
+pub mod batch;
 pub mod engine;
 pub mod gen;
 pub mod props;
